@@ -222,6 +222,12 @@ func pinnedCases() []pinned {
 		svc.Headers = []*schema.Header{{Name: "X-Tenant-ID", Type: "string", Required: true}}
 		m.Headers = []*schema.Header{{Name: "X-Tenant-ID", Type: "string", Required: false}}
 		innerCase("C09", "C09/optional_override_still_required.json", "server", "c09", "PinService.Do", s, "header_override_drops_required")
+		s5, _, _, _, svc5 := baseSchema("p0033")
+		svc5.Headers = []*schema.Header{{Name: "X-Count", Type: "number", Required: true}}
+		innerCase("C09", "C09/ts_server_accepts_empty_number_header.json", "server", "c09ts", "PinService.Do", s5)
+		s6, _, _, _, svc6 := baseSchema("p0034")
+		svc6.Headers = []*schema.Header{{Name: "X-When", Type: "string", Format: "time", Required: true}}
+		innerCase("C09", "C09/ts_server_accepts_out_of_range_time_header.json", "server", "c09ts", "PinService.Do", s6)
 	}
 	{
 		s, req, _, _, _ := baseSchema("p0036")
